@@ -242,6 +242,26 @@ static std::vector<std::string> parse_path(const std::string &t) {
   for (const std::string &h : parts) names.push_back(name_of(h));
   return names;
 }
+// A model that is checkpointed while it is still growing (save / load of the root, then more
+// layers, then the real save / load): the earlier calls must not fix what the later ones see.
+// State-neutral: the partial tree is saved with statistics and loaded back onto the same device,
+// and the gradient (which a load clears) is put back.
+static void interim_checkpoint(ModelObj &m) {
+  // every parameter registered so far must be valid and on one device (otherwise the interim calls would fail or move data)
+  std::vector<Parameter *> ps;
+  for (const auto &kv : m.root.model.get_all_parameters()) ps.push_back(kv.second);
+  if (ps.empty()) return;
+  for (Parameter *p : ps) if (!p->valid() || &p->device() != &ps[0]->device()) return;
+  const std::string path = g_dir + "/interim.bin";
+  try {
+    std::vector<std::vector<float>> gs;
+    for (Parameter *p : ps) gs.push_back(p->gradient().to_vector());
+    m.root.model.save(path, true);
+    m.root.model.load(path, true, ps[0]->device());
+    for (std::size_t i = 0; i < ps.size(); ++i) ps[i]->gradient().reset_by_vector(gs[i]);
+  } catch (const Error &) {}
+  ::unlink(path.c_str());
+}
 static void build_model(ModelObj &m, const std::vector<std::string> &w, std::size_t i) {
   if (i >= w.size()) throw BadOp();
   std::uint32_t n = vh::to_u32(w[i++]);
@@ -263,6 +283,7 @@ static void build_model(ModelObj &m, const std::vector<std::string> &w, std::siz
         cur = nx.get();
       }
       cur->model.add(paths[k].back(), *m.params[k]);
+      if (k + 1 < n) interim_checkpoint(m);
     }
   } catch (const Error &) { throw BadOp(); }
 }
